@@ -33,7 +33,7 @@ func init() {
 		ID:    "C12",
 		Level: "fault_enumeration",
 		Race:  true,
-		Rule: "enumeration of fault placements around Submit: (presend) parameter-writer / auth-writer / unparsable URL / invalid method / no-producer / failing-producer / directory-as-file errors after upload sources were handed over (instrumented sources, sources with a declared type, a real temporary file, multipart documents of plain form fields only); (upload) read error at every byte offset of file and stream sources of every length 0..L, sources whose Close errs; " +
+		Rule: "enumeration of fault placements around Submit: (presend) parameter-writer / auth-writer / unparsable URL / invalid method / no-producer / failing-producer / directory-as-file errors after upload sources were handed over, and requests that build but cannot be sent (scheme lists of the Runtime or the operation that do not end on http/https, no host, a host that is no host name; a real http.Transport over a dialer that makes no connection; also through the operation's client, with Debug on) (instrumented sources, sources with a declared type, a real temporary file, multipart documents of plain form fields only); (upload) read error at every byte offset of file and stream sources of every length 0..L, sources whose Close errs; " +
 			"(roundtrip) scripted RoundTripper failing before/after consuming the request body, and scripted response bodies x reader behaviours (reads all / half / nothing / fails / closes the body itself / moves the body with io.Copy, the byte-stream consumer or a ReadFrom destination into a destination that refuses part-way) x response Content-Types (usable, absent, no consumer, not parsable) x connection reuse (enabled before the first call, with a configured client, with a client that has no transport, after a first call, through the operation's own client); " +
 			"(server) a raw loopback TCP server that closes, resets, stalls or truncates at every byte offset of a canned response (Content-Length and chunked), or accepts and never reads a 16 MiB upload, x deadline source (request timeout, context from the operation or from Runtime.Context or none, both) x the Runtime's or the operation's client; quick tier: every offset x action, reuse by offset parity except at structural offsets, one deadline source per stall offset (documented in enumerate); " +
 			"(cancel) context cancelled at each hook point of Submit, also against a server that holds its answer while the call has no timeout; (drain) every Read-size sequence, optionally followed by an io.Copy into a failing destination, then Close on the connection-reuse body wrapper. Monitors: close counters on every source and response body, bytes left unread at Close, what the reader was shown (bytes, error), goroutine census on client frames (before/after, settle loop on goroutine states), what the fault point actually delivered, Submit's error. " +
@@ -47,6 +47,7 @@ func init() {
 			"a stream handed over as the BODY payload (io.ReadCloser) is not a 'file handed over for upload': its release after a pre-send error is counted (class probe:readcloser-payload-*), not judged",
 			"whether an error reported by Close of a stream payload that delivered every byte fails the call is outside the statement (counted)",
 			"a cancellation placed before client.Do that nevertheless ends in a complete response is counted, not judged (the statement allows success when the complete response was obtained); the dropped cancellation is judged where only it can end the call (server holds, no timeout)",
+			"in the placements of a request that builds but cannot be sent (unusual scheme lists, no host, a host that is no host name) the transport is a real http.Transport whose dialer makes no connection: no response can be obtained, so an error is owed whichever scheme and host the call ends up with; who turns the request down (the Runtime, http.Client, the transport before or at the dial) is counted, not judged",
 			"a failure of the harness's own scaffolding (no listener, no temporary file or directory, no connection to the loopback server) makes the case inconclusive, never a violation",
 		},
 		MinNontrivial: 100,
@@ -110,11 +111,24 @@ type Case struct {
 	// ServerHolds (cancel kind): the server does not answer before the verdict is in and the call has no timeout
 	// of its own: only the cancellation can end it
 	ServerHolds bool `json:"serverHolds,omitempty"`
+	// RtSchemes / OpSchemes (presend kind, fault unusual-schemes): the scheme list the Runtime is created with (nil:
+	// none) and the one the operation carries (ClientOperation.Schemes). Every other case: Runtime ["http"], none on
+	// the operation
+	RtSchemes []string `json:"runtimeSchemes,omitempty"`
+	OpSchemes []string `json:"operationSchemes,omitempty"`
 }
 
 func (c *Case) key() string {
 	return fmt.Sprintf("%s|%s|%s|%d|%d|%d|%v|%s|%s|%v|%s|%v|%v|%d", c.Kind, c.Payload, c.Fault, c.Offset, c.Len, c.Chunk, c.Reuse, c.Deadline, c.Reader, c.Chunked, c.HookPoint, c.Sizes, c.EOFWith, c.Perturb) + "|" + c.ReuseVia + fmt.Sprintf("|%d|%s|%v|%d|%d|%v|%d|%v|%v", c.RespLen, c.RespCT, c.CloseFails, c.FaultSrc, c.RespStatus, c.RespKnownLen, c.RespFailAt, c.Debug, c.AuthGetBody) +
-		fmt.Sprintf("|%v|%s|%d|%d|%v", c.OpClient, c.CtxVia, c.WriteFailAt, c.CopyFailAt, c.ServerHolds)
+		fmt.Sprintf("|%v|%s|%d|%d|%v", c.OpClient, c.CtxVia, c.WriteFailAt, c.CopyFailAt, c.ServerHolds) + c.schemesKey()
+}
+
+// schemesKey: empty for the cases without scheme lists of their own (the keys of older cases keep their form).
+func (c *Case) schemesKey() string {
+	if c.RtSchemes == nil && c.OpSchemes == nil {
+		return ""
+	}
+	return fmt.Sprintf("|rt%q|op%q", c.RtSchemes, c.OpSchemes)
 }
 
 // switchRT serves a first, benign exchange itself and hands every later request to next.
@@ -832,6 +846,25 @@ func runCase(m *mon.M, c *Case) {
 	}
 }
 
+// refusingDialer is the dialer of the real http.Transport of the refused-request placements: it counts the
+// connections asked for and makes none. Whatever URL the call ends up with, no response can be obtained.
+type refusingDialer struct{ calls int32 }
+
+var errDialRefused = errors.New("c12: the scripted dialer makes no connection")
+
+func (d *refusingDialer) DialContext(context.Context, string, string) (net.Conn, error) {
+	atomic.AddInt32(&d.calls, 1)
+	return nil, errDialRefused
+}
+
+// refusedFault: the pre-send placements where request construction itself has nothing to object to, but the
+// request that was built cannot be sent: a scheme list that does not end on http/https, no host, a host that is
+// no host name. Whoever refuses it (the Runtime before sending, http.Client, the transport before or at the dial),
+// the exchange ends before anything is sent.
+func refusedFault(f string) bool {
+	return f == "unusual-schemes" || f == "empty-host" || f == "host-with-space"
+}
+
 func runPresend(m *mon.M, c *Case) {
 	h := &harness{quiescent: !c.Debug}
 	defer h.osfilesClosed()
@@ -865,7 +898,25 @@ func runPresend(m *mon.M, c *Case) {
 	case "unregistered-media-type":
 		consumes = []string{"application/vnd.nobody-registered", "application/json"}
 	}
-	r := client.New("example.invalid", base, []string{"http"})
+	host, schemes := "example.invalid", []string{"http"}
+	refused := refusedFault(c.Fault)
+	var tr http.RoundTripper = srt
+	dial, trapDial := &refusingDialer{}, &refusingDialer{}
+	if refused {
+		// a real http.Transport (net/http's own checks of scheme and host are part of the path) over a dialer that
+		// makes no connection: it works synchronously inside RoundTrip and releases the request body before it
+		// returns an error, so the quiescence rule of settle applies as with the scripted transport
+		tr = &http.Transport{DialContext: dial.DialContext, DisableKeepAlives: true}
+		switch c.Fault {
+		case "unusual-schemes":
+			schemes = c.RtSchemes
+		case "empty-host":
+			host = ""
+		case "host-with-space":
+			host = "exa mple.invalid"
+		}
+	}
+	r := client.New(host, base, schemes)
 	if c.Fault == "producer-fails" {
 		r.Producers["application/json"] = rt.ProducerFunc(func(w io.Writer, _ interface{}) error {
 			_, _ = w.Write([]byte(`{"half":`))
@@ -875,15 +926,34 @@ func runPresend(m *mon.M, c *Case) {
 	if c.Fault == "bad-base-path" {
 		r.BasePath = base
 	}
-	r.Transport = srt
+	r.Transport = tr
+	if refused && c.OpClient {
+		// the operation brings its own client over the refusing transport; the Runtime's own is a second one
+		// (which of them carries the exchange is not C12's subject)
+		r.Transport = &http.Transport{DialContext: trapDial.DialContext, DisableKeepAlives: true}
+	}
 	if c.Reuse {
 		r.EnableConnectionReuse()
 	}
 	debugOn(r, c)
 	op := &rt.ClientOperation{ID: "x", Method: method, PathPattern: pattern, ConsumesMediaTypes: consumes, ProducesMediaTypes: []string{"application/json"},
 		Params: h.params(c, baseDeadline, failWriter), Reader: h.reader(c), AuthInfo: auth, Context: context.Background()}
+	if refused {
+		op.Schemes = c.OpSchemes
+		if c.OpClient {
+			opTr := tr
+			if c.Reuse {
+				opTr = client.KeepAliveTransport(tr)
+			}
+			op.Client = &http.Client{Transport: opTr}
+			m.Class("config:operation-client")
+		}
+	}
 	o := submitWatched(r, op, 200*baseDeadline)
 	feat := c.Fault + "/" + c.Payload
+	if refused && c.OpClient {
+		feat += "/operation-client"
+	}
 	if !o.returned {
 		m.Violate("presend/did-not-return/"+feat, "Submit did not return; case "+c.key()+"\n"+o.dump, c)
 		return
@@ -908,6 +978,20 @@ func runPresend(m *mon.M, c *Case) {
 			m.Class("probe:directory-accepted-by-SetFileParam") // then it fails as an upload source at byte 0: an error all the same
 		}
 	}
+	if refused {
+		// where the request was turned down is counted, not judged: the statement only asks how the call ends
+		switch dials := atomic.LoadInt32(&dial.calls) + atomic.LoadInt32(&trapDial.calls); {
+		case dials == 0:
+			m.Class("refused-request:turned-down-before-any-dial")
+		default:
+			m.Class("refused-request:turned-down-at-the-dial")
+		}
+		if o.err == nil {
+			// no connection was ever made: no response, let alone a complete one, can have been obtained
+			m.Violate("presend/no-error/"+feat, fmt.Sprintf("Submit returned (%v, nil) although no connection was made (host %q, Runtime schemes %q, operation schemes %q; the dialer refuses every connection); case %s", o.res, host, c.RtSchemes, c.OpSchemes, c.key()), c)
+			return
+		}
+	}
 	if o.err == nil {
 		m.Violate("presend/no-error/"+feat, "Submit returned nil error although request construction failed; case "+c.key(), c)
 		return
@@ -916,7 +1000,7 @@ func runPresend(m *mon.M, c *Case) {
 		m.Violate("presend/panic/"+feat, o.err.Error(), c)
 		return
 	}
-	if atomic.LoadInt32(&srt.calls) != 0 && !(c.Fault == "file-param-is-directory" && h.paramErr == nil) {
+	if !refused && atomic.LoadInt32(&srt.calls) != 0 && !(c.Fault == "file-param-is-directory" && h.paramErr == nil) {
 		m.Violate("presend/sent-anyway/"+feat, "the transport was invoked although request construction failed", c)
 		return
 	}
@@ -1576,6 +1660,39 @@ func enumerate(m *mon.M) []*Case {
 	for _, f := range []string{"writer-error", "auth-error", "auth-error-after-getbody", "bad-method"} {
 		for _, p := range []string{"osfile", "typed-file"} {
 			cs = append(cs, &Case{Kind: "presend", Fault: f, Payload: p, Len: 700, Reader: "all"})
+		}
+	}
+	// a request that builds but cannot be sent: the scheme picked from the Runtime's list or the operation's is not
+	// http/https (ws and wss are legal in a Swagger 2 schemes list; a typo; upper case), there is no host, the host
+	// is no host name. Whoever turns it down (the Runtime once the request is built, http.Client, the transport before
+	// or at the dial -- the dialer of these cases makes no connection), the exchange ends before anything is sent:
+	// for every payload kind, the streaming goroutine of a multipart request is already running by then
+	allPayloads := append(append([]string{}, payloads...), "typed-file", "osfile", "files-2-fields", "file-replaced")
+	type schemeLists struct{ rt, op []string }
+	lists := []schemeLists{
+		{rt: []string{"ws"}}, {rt: []string{"wss"}}, {rt: []string{"htpp"}}, {rt: []string{"ws", "wss"}}, {rt: []string{"ws", "http"}}, {rt: []string{"HTTP"}},
+		{op: []string{"ws"}}, {op: []string{"wss", "ws"}}, {op: []string{"htpp"}}, {op: []string{"Https"}},
+		{rt: []string{"ws"}, op: []string{"http"}}, {rt: []string{""}, op: []string{"wss"}},
+	}
+	for _, p := range allPayloads {
+		for _, reuse := range []bool{false, true} {
+			for _, sl := range lists {
+				cs = append(cs, &Case{Kind: "presend", Fault: "unusual-schemes", Payload: p, Len: 700, Reuse: reuse, Reader: "all", RtSchemes: sl.rt, OpSchemes: sl.op})
+			}
+			for _, f := range []string{"empty-host", "host-with-space"} {
+				cs = append(cs, &Case{Kind: "presend", Fault: f, Payload: p, Len: 700, Reuse: reuse, Reader: "all"})
+			}
+			// through the operation's own client
+			cs = append(cs, &Case{Kind: "presend", Fault: "unusual-schemes", Payload: p, Len: 700, Reuse: reuse, Reader: "all", OpSchemes: []string{"ws"}, OpClient: true})
+			cs = append(cs, &Case{Kind: "presend", Fault: "empty-host", Payload: p, Len: 700, Reuse: reuse, Reader: "all", OpClient: true})
+		}
+		// Runtime.Debug on: the request is dumped (its body read) before it is turned down
+		cs = append(cs, &Case{Kind: "presend", Fault: "unusual-schemes", Payload: p, Len: 700, Reader: "all", RtSchemes: []string{"ws"}, Debug: true})
+		cs = append(cs, &Case{Kind: "presend", Fault: "host-with-space", Payload: p, Len: 700, Reader: "all", Debug: true})
+		// sources whose Close reports an error
+		if p == "file" || p == "files+fields" || p == "files-2-fields" {
+			cs = append(cs, &Case{Kind: "presend", Fault: "unusual-schemes", Payload: p, Len: 700, Reader: "all", RtSchemes: []string{"wss"}, CloseFails: true})
+			cs = append(cs, &Case{Kind: "presend", Fault: "empty-host", Payload: p, Len: 700, Reader: "all", CloseFails: true})
 		}
 	}
 	// upload-source faults at every offset
